@@ -42,6 +42,7 @@ type sendRec struct {
 	Pcode  int64  `json:"pcode"`
 	Lic    string `json:"license_override"`
 	Eff    string `json:"license_effective"`
+	Entry  string `json:"entry"`
 	Flush  bool   `json:"flush_flag"`
 	Len    int    `json:"frame_len"`
 	Inv    int64  `json:"inv"`
